@@ -118,7 +118,8 @@ let () =
              | Ok v ->
                  (match ce_dscore v (nat_of_int p) with
                   | Ok d -> let t = int_of_nat (ce_scale v thr) in let d = int_of_nat d in
-                      if d < t then Printf.sprintf " c08-prefilter-not-conservative(scale=%d,dscore=%d)" t d
+                      if d < t then Printf.sprintf " c08-prefilter-not-conservative(scale=%d,dscore=%d,factor=%d)" t d
+                          (int_bits_of_f32 v.ce_dm.d_factor)
                       else ""
                   | _ -> "")
              | _ -> "") in
@@ -224,7 +225,10 @@ let () =
                                  let best = List.fold_left (fun acc (p, s) -> match acc with
                                      | None -> Some (p, s)
                                      | Some (_, bs) -> if bits_ge s bs then Some (p, s) else acc) None rem in
-                                 let bs = (match best with Some (p, s) -> Printf.sprintf "best-remaining=%d:%d" (int_of_z p) (int_of_z s) | None -> "nothing-remains") in
+                                 let bs = (match best with
+                                     | Some (p, s) -> Printf.sprintf "best-remaining=%d:%d%s" (int_of_z p) (int_of_z s)
+                                                        (if r = "N" then prefilter_note (int_of_z p) else "")
+                                     | None -> "nothing-remains") in
                                  set_v (Printf.sprintf "PROPFAIL %s k=%d max=%s %s" tag k r bs)
                                end);
                           (* --- model --- *)
